@@ -580,8 +580,9 @@ func TestVfTimeoutWiring(t *testing.T) {
 	defer tr.Close()
 	g := &vfGamma{base: vfIPBase(), rnd: vfRand(15)}
 	la := g.ip("10.0.0.1")
-	backs := []string{g.ip("10.0.4.1") + ":5060", g.ip("10.0.4.2") + ":5060"}
-	bsink := map[string]*vfSink{backs[0]: vfAllSinks.get(t, g.ip("10.0.4.1"), 5060), backs[1]: vfAllSinks.get(t, g.ip("10.0.4.2"), 5060)}
+	// three backends: with one unrelated request in between, a load-balanced in-dialog request never lands on the holder by rotation
+	backs := []string{g.ip("10.0.4.1") + ":5060", g.ip("10.0.4.2") + ":5060", g.ip("10.0.4.3") + ":5060"}
+	bsink := map[string]*vfSink{backs[0]: vfAllSinks.get(t, g.ip("10.0.4.1"), 5060), backs[1]: vfAllSinks.get(t, g.ip("10.0.4.2"), 5060), backs[2]: vfAllSinks.get(t, g.ip("10.0.4.3"), 5060)}
 	vfAllSinks.get(t, g.ip("10.0.5.5"), 5062) // where relayed responses go
 	type tc struct {
 		name   string
@@ -619,7 +620,7 @@ func TestVfTimeoutWiring(t *testing.T) {
 		if c.yaml != "" {
 			y += "  dialogTimeout: " + c.yaml + "\n"
 		}
-		y += fmt.Sprintf("  listens:\n  - address: %s\n    udp-port: %d\n    tcp-port: %d\n    backends:\n    - udp://%s\n    - udp://%s\n", la, udp, tcp, backs[0], backs[1])
+		y += fmt.Sprintf("  listens:\n  - address: %s\n    udp-port: %d\n    tcp-port: %d\n    backends:\n    - udp://%s\n    - udp://%s\n    - udp://%s\n", la, udp, tcp, backs[0], backs[1], backs[2])
 		if c.env != "" {
 			os.Setenv("DEFAULT_DIALOG_TIMEOUT", c.env)
 		} else {
@@ -683,7 +684,7 @@ func TestVfTimeoutWiring(t *testing.T) {
 			pl := pooled
 			pmu.Unlock()
 			tr.Emit(vfM{"ev": "step", "case": id, "cls": cls, "t0": t0, "t1": t1, "src": vfM{"ip": srcIP, "port": srcPort}, "inmsg": in, "outs": outs,
-				"pooled": pl, "expires": 0, "substcls": "", "mine": in.Kind == "req", "npool": 2, "panic": "", "stuck": false})
+				"pooled": pl, "expires": 0, "substcls": "", "mine": in.Kind == "req", "npool": 3, "panic": "", "stuck": false})
 			return got
 		}
 		fromCli := func(raw []byte) func() {
